@@ -85,6 +85,9 @@ def arr_method(ex, a, name, args, kwargs, line):
     if name == 'flatten':
         if a.ndim == 1:
             return arrays.fresh_like(ex, a)
+        from . import reshape as _rs
+        items = _rs.flat_items(ex, a)
+        return _rs.build(ex, items, [len(items)], a.elem, 'flat')
     if name == 'sum':
         if a.ndim == 1:
             return tm.app('sum', (a.term, to_term(a.shape[0])), REAL)
